@@ -82,6 +82,13 @@ def aimed_doc(rng, serial):
         else:
             holder[key] = obj(counter)
     root["properties"]["holder"] = holder
+    if rng.random() < 0.5:
+        # defaults next to compositions whose members are all trivial (state written here must not leak
+        # into documents handled later by the same process)
+        root["properties"]["trivial"] = rng.choice([
+            {"default": 3, "allOf": [{"title": "x"}]}, {"default": 0, "anyOf": [True]},
+            {"default": "d", "oneOf": [{}]}, {"default": [1], "allOf": [{}, True]},
+        ])
     kinds = rng.sample(["string", "integer", "number", "boolean", "null", "array"], k=rng.randint(1, 6))
     for idx, kind in enumerate(kinds):
         root["properties"][f"k{idx}"] = {"type": kind}
